@@ -257,6 +257,11 @@ def run(ctx):
             if not any(x[0] == "agg" and x[2] == "TimedOut" for x in a):
                 probs.append("timer task does not send ExitStatus::TimedOut")
         # the task is created on the Some(duration) arm only: trivially by construction (uses `duration`)
+    # no way out of run_internet that hands back a status of its own making: what it returns was received on the
+    # shutdown channel (or is the wrapper's TimedOut)
+    own = [(bb, st) for bb, st in K.aggregates(ri, "shutdown::ExitStatus") if st[2][1].get("v") != "TimedOut"]
+    for bb, st in own:
+        probs.append("run_internet returns ExitStatus::%s of its own making at %s: on that path a run that was given a timeout ends without the timed-out status (and before the timeout)" % (st[2][1].get("v"), st[3]))
     (ctx.bad if probs else ctx.ok)("I-TIMEOUT", "I-TIMEOUT:timer-task", ri.span,
         "; ".join(probs) if probs else "timer task: sleep(duration) completes before shut_down_with_status(TimedOut)")
 
